@@ -80,7 +80,7 @@ func vfRec(row vfRow) core.Record {
 	for _, f := range row {
 		rb.AddRaw(f)
 	}
-	return rb.Build()
+	return rb.Trim().Build() // as SuRecord.ToRecord does: trailing empty fields are not stored
 }
 
 func vfRowOf(rec core.Record, ncols int) vfRow {
